@@ -1,11 +1,15 @@
 import AdaptiveModel.L1D
 import Mathlib.Algebra.Order.Field.Basic
 
-/-! Statement-level definitions for the Learner1D theorems (C01, C02, C10, C12). -/
+/-! Statement-level definitions for the Learner1D theorems (C01, C02, C09–C13). -/
 namespace L1D
 variable {α : Type} [Field α] [LinearOrder α] [IsStrictOrderedRing α]
 
-/-- structural invariant of the Learner1D model -/
+/-- keys of a loss table -/
+def tkeys (l : List (Ival α × Loss α)) : List (Ival α) := l.map Prod.fst
+
+/-- structural invariant of the Learner1D model: sorted neighbour lists, and one loss entry per
+pair of neighbouring points (evaluated / evaluated-or-pending) -/
 structure Inv (s : State α) : Prop where
   xs_sorted : s.xs.Pairwise (· < ·)
   xsC_sorted : s.xsC.Pairwise (· < ·)
@@ -14,14 +18,17 @@ structure Inv (s : State α) : Prop where
   pend_nodata : ∀ x ∈ s.pending, hasData s x = false
   pend_nodup : s.pending.Nodup
   data_nodup : (s.data.map Prod.fst).Nodup
-  losses_keys : ∀ iv, (lget iv s.losses).isSome = true ↔ iv ∈ pairs s.xs
-  lossesC_keys : ∀ iv, (lget iv s.lossesC).isSome = true ↔ iv ∈ pairs s.xsC
-  losses_nodup : (s.losses.map Prod.fst).Nodup
-  lossesC_nodup : (s.lossesC.map Prod.fst).Nodup
+  losses_keys : ∀ iv, iv ∈ tkeys s.losses ↔ iv ∈ pairs s.xs
+  lossesC_keys : ∀ iv, iv ∈ tkeys s.lossesC ↔ iv ∈ pairs s.xsC
+  losses_nodup : (tkeys s.losses).Nodup
+  lossesC_nodup : (tkeys s.lossesC).Nodup
+
+/-- a table is in `ItemSortedDict` order for the x-scale `sc` -/
+def SortedT (r12 : α → α) (sc : α) (l : List (Ival α × Loss α)) : Prop :=
+  l.Pairwise (fun a b => keyLt r12 sc a b = true)
 
 /-- both loss tables are in `ItemSortedDict` order -/
 def TablesSorted (r12 : α → α) (s : State α) : Prop :=
-  s.losses.Pairwise (fun a b => keyLt r12 s.lossScale a b = true) ∧
-  s.lossesC.Pairwise (fun a b => keyLt r12 s.lossScale a b = true)
+  SortedT r12 s.lossScale s.losses ∧ SortedT r12 s.lossScale s.lossesC
 
 end L1D
